@@ -160,6 +160,11 @@ pub enum SchedMode {
     Pct,
     /// never preempt voluntarily (switch only when the running thread blocks or yields)
     Cooperative,
+    /// PCT over synchronisation events only: random priorities; at each synchronisation event (lock /
+    /// unlock fast path, wake, file I/O, clock read, probe — not allocations) the running thread is
+    /// demoted with probability 1/pct_horizon, at most pct_depth times. Places the few priority
+    /// changes exactly where lock-granularity and ordering bugs need them.
+    PctSync,
 }
 
 #[derive(Clone, Debug, serde::Serialize, serde::Deserialize)]
@@ -170,6 +175,10 @@ pub struct SimCfg {
     pub pct_horizon: u64,
     /// every n-th allocation of a simulated thread is a scheduling point (0 = never)
     pub alloc_every: u64,
+    /// every n-th acquire/release atomic write of a simulated thread inside the (instrumented) code
+    /// under test is a scheduling point (0 = never): lock and unlock fast paths
+    #[serde(default)]
+    pub atomic_every: u64,
     /// enabled fault kinds (bit mask)
     pub faults: u32,
     /// probability that an eligible I/O op gets a fault
@@ -199,6 +208,7 @@ impl Default for SimCfg {
             pct_depth: 3,
             pct_horizon: 2000,
             alloc_every: 0,
+            atomic_every: 0,
             faults: 0,
             io_fault_rate: 0.0,
             clock_fault_rate: 0.0,
@@ -320,6 +330,7 @@ struct Slot {
     timed_out: bool,
     alloc_count: u64,
     alloc_bytes: u64,
+    atomic_count: u64,
     clock_off: u64,
     prio: u64,
     yields_in_row: u32,
@@ -334,6 +345,8 @@ pub struct Stats {
     pub futex_wakes: u64,
     pub yields: u64,
     pub alloc_points: u64,
+    #[serde(default)]
+    pub atomic_points: u64,
     pub clock_reads: u64,
     pub sim_reads: u64,
     pub sim_writes: u64,
@@ -387,6 +400,8 @@ pub struct Sim {
     hard_faults: u32,
     addr_ids: BTreeMap<usize, u32>,
     pct_points: Vec<u64>,
+    sync_demotions: u32,
+    just_woken: bool,
     pub quiet: bool,
     pub probes: Vec<ProbeEv>,
     pub trace: Option<Vec<String>>,
@@ -463,13 +478,21 @@ pub enum Pt {
     Spawn = 9,
     Block = 10,
     Exit = 11,
+    Atomic = 12,
 }
 
 impl Sim {
-    fn ev(&mut self, tid: usize, kind: Pt, a: u64, b: u64) {
+    fn ev(&mut self, tid: usize, kind: Pt, a_: u64, b_: u64) {
+        let (a, b) = (a_, b_);
         fnv(&mut self.stats.trace_hash, ((tid as u64) << 8) | kind as u64);
         fnv(&mut self.stats.trace_hash, a);
         fnv(&mut self.stats.trace_hash, b);
+        if let Some((a, b)) = trace_range() {
+            if self.stats.steps >= a && self.stats.steps <= b {
+                let msg = format!("EV {} t{} {:?} {} {}\n", self.stats.steps, tid, kind, a_, b_);
+                raw_write_fd(2, msg.as_bytes());
+            }
+        }
         if let Some(t) = &mut self.trace {
             t.push(format!("{} t{} {:?} {} {}", self.stats.steps, tid, kind, a, b));
         }
@@ -525,6 +548,11 @@ impl Sim {
     /// choose who runs next; `me` may or may not be runnable.
     fn pick(&mut self, me: usize, kind: Pt) -> Option<usize> {
         let opts = self.runnable(me);
+        if std::env::var_os("SIM_DEBUG_PICK").is_some() && self.pct_points.contains(&self.stats.steps) {
+            let states: Vec<String> = (0..self.nthreads).map(|t| format!("{}:{:?}:{}", t, self.slots[t].state, self.slots[t].prio)).collect();
+            let msg = format!("PICK step={} me={} kind={:?} opts={:?} states={:?}\n", self.stats.steps, me, kind, opts, states);
+            raw_write_fd(2, msg.as_bytes());
+        }
         if opts.is_empty() {
             return None;
         }
@@ -556,11 +584,31 @@ impl Sim {
                 self.slots[me].prio = low.saturating_sub(1);
             }
         }
+        if cfg_sched == SchedMode::PctSync && !self.dec.replay {
+            if kind == Pt::Yield {
+                let low = self.slots.iter().map(|s| s.prio).min().unwrap_or(0);
+                self.slots[me].prio = low.saturating_sub(1);
+            } else if kind != Pt::Alloc && me_runnable && self.sync_demotions < self.cfg.pct_depth {
+                let q = 1.0 / (self.cfg.pct_horizon.max(2) as f64);
+                if self.dec.sched_rng.chance(q) {
+                    if std::env::var_os("SIM_DEBUG_PICK").is_some() {
+                        let msg = format!("DEMOTE step={} me={} kind={:?} opts={:?}\n", self.stats.steps, me, kind, opts);
+                        raw_write_fd(2, msg.as_bytes());
+                    }
+                    self.sync_demotions += 1;
+                    let low = self.slots.iter().map(|s| s.prio).min().unwrap_or(0);
+                    self.slots[me].prio = low.saturating_sub(1);
+                }
+            }
+        }
         let prios: Vec<u64> = opts.iter().map(|t| self.slots[*t].prio).collect();
         let yielding = kind == Pt::Yield;
+        let wake_boost = self.just_woken && me_runnable;
         let c = self.dec.sched_choice(n, |rng| match cfg_sched {
             SchedMode::Random => {
-                if me_runnable && !yielding && rng.chance(p_stay) {
+                if wake_boost && n > 1 && rng.chance(0.5) {
+                    1 + rng.below(n as u64 - 1) as usize
+                } else if me_runnable && !yielding && rng.chance(p_stay) {
                     0
                 } else if me_runnable && yielding {
                     // a yield hands over to somebody else most of the time
@@ -569,7 +617,7 @@ impl Sim {
                     rng.below(n as u64) as usize
                 }
             }
-            SchedMode::Pct => {
+            SchedMode::Pct | SchedMode::PctSync => {
                 let mut best = 0;
                 for i in 1..n {
                     if prios[i] > prios[best] {
@@ -701,6 +749,14 @@ fn stack_site() -> String {
     frames.first().cloned().unwrap_or_else(|| "unknown".to_string())
 }
 
+fn trace_range() -> Option<(u64, u64)> {
+    static R: std::sync::OnceLock<Option<(u64, u64)>> = std::sync::OnceLock::new();
+    *R.get_or_init(|| std::env::var("SIM_TRACE_RANGE").ok().and_then(|v| {
+        let mut p = v.split('-');
+        Some((p.next()?.parse().ok()?, p.next()?.parse().ok()?))
+    }))
+}
+
 static mut FATAL_CB: Option<fn(&str, &mut Sim)> = None;
 pub fn set_fatal_cb(f: fn(&str, &mut Sim)) {
     unsafe { FATAL_CB = Some(f) }
@@ -721,6 +777,7 @@ pub fn start(cfg: SimCfg, dec: Decider, fatal_fd: i32) {
             timed_out: false,
             alloc_count: 0,
             alloc_bytes: 0,
+            atomic_count: 0,
             clock_off: 0,
             prio: 0,
             yields_in_row: 0,
@@ -745,6 +802,8 @@ pub fn start(cfg: SimCfg, dec: Decider, fatal_fd: i32) {
         hard_faults: 0,
         addr_ids: BTreeMap::new(),
         pct_points: vec![],
+        sync_demotions: 0,
+        just_woken: false,
         quiet: true,
         probes: vec![],
         trace: None,
@@ -846,7 +905,20 @@ pub fn set_quiet(q: bool) {
         }
         if !q && s.cfg.sched == SchedMode::Pct {
             let base = s.stats.steps;
-            let h = s.cfg.pct_horizon.max(1);
+            // the horizon must match the length of the explored phase or every change point lands in
+            // its first part. The quiet reference phase did the same work query by query, so its
+            // allocation count predicts the number of allocation points to come; the configured
+            // horizon is a per-run multiplier (percent) on that estimate.
+            let allocs: u64 = s.slots.iter().map(|sl| sl.alloc_count).sum();
+            let every = s.cfg.alloc_every;
+            let est = if every == 0 { 400 } else { allocs / every / 2 + 400 };
+            let pct = match s.cfg.pct_horizon {
+                0..=200 => 10,
+                201..=1000 => 50,
+                1001..=5000 => 100,
+                _ => 200,
+            };
+            let h = (est * pct / 100).max(50);
             let mut pts = vec![];
             for _ in 0..s.cfg.pct_depth {
                 let p = if s.dec.replay { 0 } else { s.dec.sched_rng.below(h) };
@@ -855,6 +927,10 @@ pub fn set_quiet(q: bool) {
             // on replay the change points are irrelevant: every decision is recorded explicitly
             if !s.dec.replay {
                 s.pct_points = pts;
+                // experimentation aid: one explicit change point
+                if let Some(k) = std::env::var("SIM_PCT_POINT").ok().and_then(|k| k.parse::<u64>().ok()) {
+                    s.pct_points = vec![k]; // absolute step
+                }
             }
         }
     })
@@ -994,7 +1070,48 @@ pub fn hook_alloc(size: usize) {
     if every != 0 && !s.quiet && s.slots[tid].alloc_count % every == 0 {
         if let Some(g) = enter() {
             s.stats.alloc_points += 1;
+            if let Ok(pat) = std::env::var("SIM_DEBUG_SITE") {
+                let bt = std::backtrace::Backtrace::force_capture().to_string();
+                if bt.contains(&pat) {
+                    let msg = format!("SITE step={} tid={} quiet={}\n", s.stats.steps + 1, g.tid, s.quiet);
+                    raw_write_fd(2, msg.as_bytes());
+                }
+            }
             s.sched_point(g.tid, Pt::Alloc);
+        }
+    }
+}
+
+/// an acquire/release atomic write in instrumented code (see tsan_rt.rs)
+pub fn hook_atomic() {
+    let tid = match TID.try_with(|c| c.get()) {
+        Ok(t) if t != usize::MAX => t,
+        _ => return,
+    };
+    if IN_SIM.with(|c| c.get()) {
+        return;
+    }
+    let p = SIM.load(Ordering::Acquire);
+    if p.is_null() {
+        return;
+    }
+    let s = unsafe { &mut *p };
+    let every = s.cfg.atomic_every;
+    if every == 0 || s.quiet {
+        return;
+    }
+    s.slots[tid].atomic_count += 1;
+    if s.slots[tid].atomic_count % every == 0 {
+        if let Some(g) = enter() {
+            s.stats.atomic_points += 1;
+            if let Ok(pat) = std::env::var("SIM_DEBUG_SITE") {
+                let bt = std::backtrace::Backtrace::force_capture().to_string();
+                if bt.contains(&pat) {
+                    let msg = format!("ASITE step={} tid={}\n", s.stats.steps + 1, g.tid);
+                    raw_write_fd(2, msg.as_bytes());
+                }
+            }
+            s.sched_point(g.tid, Pt::Atomic);
         }
     }
 }
@@ -1067,7 +1184,11 @@ pub unsafe fn hook_futex(addr: *const AtomicU32, op: i32, val: u32, timeout: *co
             let aid = s.addr_id(addr as usize);
             s.ev(me, Pt::FutexWake, aid, woken as u64);
             if woken > 0 {
+                // kernels often run the wakee right away (wake-up preemption): the random policy
+                // hands over to a just-woken thread half of the time
+                s.just_woken = true;
                 s.sched_point(me, Pt::FutexWake);
+                s.just_woken = false;
             }
             Some((woken, 0))
         }
